@@ -403,10 +403,15 @@ Definition sh_state (t : layout) (g : layout) (ls : list lstats) : layout :=
 Definition has_empty_unskipped (c : dscfg) (ps : list (list Z)) : bool :=
   existsb (fun p => negb (skipped c p) && is_nil (pshapes c p)) ps.
 
+(* sharded_init_fn calls precond_dim(max_size) (i) for every non-skipped parameter with the max_size
+   of the first pass -- which is still 0 when NO parameter announces a statistic, e.g. a tree of
+   skipped parameters plus a non-skipped rank-0 one -- and (ii) once with the final padded size *)
+Definition sh_too_small (c : dscfg) (ps : list (list Z)) : bool :=
+  too_small c (snd (sh_dims c ps)) || (has_empty_unskipped c ps && too_small c (sh_max c ps)).
+
 Definition sh_init_gate (b : bugs) (c : dscfg) (ps : list (list Z)) : outcome unit :=
-  let m := snd (sh_dims c ps) in
-  if negb (bN1 b) && too_small c m then Reject 6
-  else match (if bN1 b && too_small c m then [21] else []) ++
+  if negb (bN1 b) && sh_too_small c ps then Reject 6
+  else match (if bN1 b && sh_too_small c ps then [21] else []) ++
              (if bN7 b && has_empty_unskipped c ps then [27] else []) with
        | [] => Ok tt
        | tags => Internal tags
